@@ -551,3 +551,16 @@ Theorem enp_prefix_candidate_sound
      en_prefix_candidate rtl flt b (Z.of_nat (boundary b k)) = Ok (Z.of_nat (boundary b k'), true) /\
      search (runes_of b) (Z.of_nat k') = search (runes_of b) (Z.of_nat k)).
 Proof. apply enp_prefix_candidate. Qed.
+
+(* what newStringPrefixFilter guarantees when it builds a filter *)
+Theorem enp_constructor c f :
+  en_new_filter c = Ok (Some f) ->
+  cd_rtl c = false /\
+  en_has_opcode (S (length (cd_codes c))) (cd_codes c) G_Start = Ok false /\
+  enf_ok f /\
+  exists o, cd_opts c = Some o /\ forall r q, enp_code_fact o r q -> enf_fact f r q.
+Proof.
+  intros Hc. destruct (enp_new_filter_inv c f Hc) as (o & Ho & Hr & Hs & Hg & Hsel).
+  destruct (enp_select_ok o f (enp_guard_of o Hg) Hsel) as [Hok Hfact].
+  split; [exact Hr|]. split; [exact Hs|]. split; [exact Hok|]. exists o. split; [exact Ho|exact Hfact].
+Qed.
